@@ -76,6 +76,8 @@ Section Generic.
 
   Lemma cur_add_ev s e t : cur p (add_ev s e) t = cur p s t.
   Proof. reflexivity. Qed.
+  Lemma cur_store_ev s t' i t : cur p (store_ev s t' i) t = cur p s t.
+  Proof. reflexivity. Qed.
 
   (* ---- paths ---- *)
   Lemma is_path_cons a b l : is_path p (a :: b :: l) = sedge p a b && is_path p (b :: l).
@@ -258,7 +260,7 @@ Section Generic.
   (* ---- pending list helpers ---- *)
   Lemma nth_kill_same l i e : nth_error l i = Some e ->
     nth_error (kill l i) i = Some {| e_t := e_t e; e_src := e_src e; e_st := e_st e; e_msg := e_msg e; e_v3 := e_v3 e;
-                                     e_flag := e_flag e; e_live := false; e_badtid := e_badtid e |}.
+                                     e_flag := e_flag e; e_live := false; e_badtid := e_badtid e; e_clos := e_clos e |}.
   Proof.
     revert i. induction l as [|a l IH]; intros [|i] H; cbn in *; try discriminate.
     - injection H as ->. reflexivity.
@@ -303,15 +305,13 @@ Section Generic.
   Lemma inv_s0 : inv s0.
   Proof. repeat split; intros; destruct i; discriminate. Qed.
 
-  Definition killed (s : sstate) (i : nat) : sstate := {| persisted := persisted s; pending := kill (pending s) i |}.
-
-  Lemma inv_kill s i v : inv s -> nth_error (pending s) i = Some v -> inv (killed s i).
+  Lemma inv_kill s i v t : inv s -> nth_error (pending s) i = Some v -> inv (killed s i t).
   Proof.
     intros [I0 [I1 I2]] Hn. unfold killed. repeat split; cbn [pending].
     - intros j e Hj. destruct (Nat.eq_dec i j) as [<-|Hij].
       + rewrite (nth_kill_same _ _ _ Hn) in Hj. injection Hj as <-. cbn. eapply I0; exact Hn.
       + rewrite nth_kill_other in Hj by exact Hij. eapply I0; exact Hj.
-    - intros j e Hj Hl. change (cur p {| persisted := persisted s; pending := kill (pending s) i |}) with (cur p s).
+    - intros j e Hj Hl. change (cur p {| persisted := persisted s; pending := kill (pending s) i; stored := (t, None) :: stored s |}) with (cur p s).
       destruct (Nat.eq_dec i j) as [<-|Hij].
       + rewrite (nth_kill_same _ _ _ Hn) in Hj. injection Hj as <-. cbn in Hl. discriminate.
       + rewrite nth_kill_other in Hj by exact Hij. eapply I1; eassumption.
@@ -371,12 +371,45 @@ Section Generic.
 
   (* after killing the i-th (live, unique on its thread) event no live event of that thread is left *)
   Lemma no_live_after_kill s i v : inv s -> nth_error (pending s) i = Some v -> e_live v = true ->
-    forall j e, nth_error (pending (killed s i)) j = Some e -> e_live e = true -> e_t e <> e_t v.
+    forall j e, nth_error (pending (killed s i (e_t v))) j = Some e -> e_live e = true -> e_t e <> e_t v.
   Proof.
     intros [_ [_ I2]] Hn Hl j e Hj Lj Heq. unfold killed in Hj. cbn [pending] in Hj.
     destruct (Nat.eq_dec i j) as [<-|Hij].
     - rewrite (nth_kill_same _ _ _ Hn) in Hj. injection Hj as <-. cbn in Lj. discriminate.
     - rewrite nth_kill_other in Hj by exact Hij. apply Hij. symmetry. eapply I2; eassumption.
+  Qed.
+
+  (* the application's decision on an open event *)
+  Lemma decide_ok s i v opt stop f tape s' r ann :
+    inv s -> nth_error (pending s) i = Some v -> e_live v = true ->
+    decide p s i v opt stop f tape = (s', (r, ann), false) ->
+    inv s' /\ is_path p (cur p s (e_t v) :: ann) = true /\ In (cur p s' (e_t v)) (cur p s (e_t v) :: ann) /\
+    terminal p (cur p s (e_t v)) = false.
+  Proof.
+    intros Hinv Hn Hl ED. pose proof Hinv as [I0 [I1 I2]]. unfold decide in ED.
+    match type of ED with context [process p _ _ ?k _ _ ?sk true tape] => set (k0 := k) in *; set (skip := sk) in * end.
+    destruct (process p (killed s i (e_t v)) (e_t v) k0 (e_msg v) (e_st v) skip true tape) as [[[s2 ann2] ok] fat] eqn:EP.
+    injection ED as <- _ <- ->.
+    pose proof (I1 _ _ Hn Hl) as Hsrc. pose proof (I0 _ _ Hn) as Hcan. rewrite <- Hsrc in Hcan.
+    assert (Hnt : terminal p (cur p s (e_t v)) = false) by (eapply can_nonterminal; exact Hcan).
+    change (cur p s) with (cur p (killed s i (e_t v))) in Hcan, Hnt.
+    destruct (process_ok _ _ _ _ _ _ _ _ _ _ _ _ EP (fun _ => can_sedge _ _ Hcan) Hnt eq_refl) as [P [M [O NE]]].
+    split; [eapply (inv_extend (killed s i (e_t v)) s2 (e_t v) (inv_kill s i v (e_t v) Hinv Hn) (no_live_after_kill s i v Hinv Hn Hl) O NE)|].
+    change (cur p (killed s i (e_t v))) with (cur p s) in *. split; [exact P|]. split; [exact M|exact Hnt].
+  Qed.
+
+  Lemma inv_no_closures s : inv s -> inv (no_closures s).
+  Proof.
+    intros [I0 [I1 I2]]. unfold no_closures. repeat split; cbn [pending].
+    - intros i e Hn. rewrite nth_error_map in Hn. destruct (nth_error (pending s) i) as [e0|] eqn:E; [|discriminate].
+      injection Hn as <-. cbn. eapply I0; exact E.
+    - intros i e Hn Hl. rewrite nth_error_map in Hn. destruct (nth_error (pending s) i) as [e0|] eqn:E; [|discriminate].
+      injection Hn as <-. cbn in *. change (cur p {| persisted := persisted s; pending := _; stored := stored s |}) with (cur p s).
+      eapply I1; eassumption.
+    - intros i j e1 e2 H1 H2 L1 L2 Ht. rewrite nth_error_map in H1, H2.
+      destruct (nth_error (pending s) i) as [a|] eqn:Ea; [|discriminate].
+      destruct (nth_error (pending s) j) as [b|] eqn:Eb; [|discriminate].
+      injection H1 as <-. injection H2 as <-. cbn in *. eapply I2; eassumption.
   Qed.
 
   (* a message handled for thread t *)
@@ -401,8 +434,8 @@ Section Generic.
       injection ES' as <- <- <- <-.
       cbn [is_reject] in Hd. rewrite orb_false_r in Hd. apply negb_true_iff in Hd.
       split.
-      * eapply (inv_extend s _ t Hinv (has_live_false s t Hd)); [intros t' _; apply cur_add_ev|].
-        right. eexists. split; [reflexivity|]. cbn [e_t e_src e_st]. rewrite cur_add_ev. repeat split. exact Hc.
+      * eapply (inv_extend s _ t Hinv (has_live_false s t Hd)); [intros t' _; reflexivity|].
+        right. eexists. split; [reflexivity|]. cbn [e_t e_src e_st]. repeat split. exact Hc.
       * split; [reflexivity|]. split; [left; reflexivity|left; exact Hnt].
     + match type of ES' with context [process p s t ?kk m x false false tape] => set (k := kk) in * end.
       destruct (process p s t k m x false false tape) as [[[s1 ann1] ok] fat1] eqn:EP.
@@ -421,7 +454,7 @@ Section Generic.
     inv (fst (step p s o)) /\ step_ok p s o = true.
   Proof.
     intros Hinv Hd. pose proof Hinv as [I0 [I1 I2]].
-    destruct o as [outbound m v3 flag t f tape|outbound m v3 flag wi wth wpth fresh f tape|i opt f tape|i f tape|i tape].
+    destruct o as [outbound m v3 flag t f tape|outbound m v3 flag wi wth wpth fresh f tape|i opt f tape|i f tape|i tape|t opt f tape|t f tape|].
     - (* a message *)
       unfold disciplined_step in Hd.
       destruct (step p s (Msg outbound m v3 flag t f tape)) as [s' [r ann]] eqn:ES. cbn [fst snd] in *.
@@ -453,21 +486,14 @@ Section Generic.
       destruct (nth_error (pending s) i) as [v|] eqn:Hn.
       2:{ cbn [fst] in ES'. injection ES' as <- <- <-. split; [exact Hinv|].
           unfold step_ok. cbn [op_thread]. rewrite Hn. reflexivity. }
-      destruct (e_live v) eqn:Hl.
+      destruct (e_live v && e_clos v) eqn:Hl.
       2:{ cbn [fst] in ES'. injection ES' as <- <- <-. split; [exact Hinv|].
           unfold step_ok. cbn [op_thread]. rewrite Hn, Hl. reflexivity. }
-      fold (killed s i) in *.
-      match type of Hd with context [process p _ _ ?k _ _ ?sk true tape] => set (k0 := k) in *; set (skip := sk) in * end.
-      destruct (process p (killed s i) (e_t v) k0 (e_msg v) (e_st v) skip true tape) as [[[s2 ann2] ok] fat] eqn:EP.
-      cbn [fst snd] in ES', Hd. injection ES' as <- <- <-. subst fat.
-      pose proof (I1 _ _ Hn Hl) as Hsrc. pose proof (I0 _ _ Hn) as Hcan. rewrite <- Hsrc in Hcan.
-      assert (Hnt : terminal p (cur p s (e_t v)) = false) by (eapply can_nonterminal; exact Hcan).
-      change (cur p s) with (cur p (killed s i)) in Hcan, Hnt.
-      destruct (process_ok _ _ _ _ _ _ _ _ _ _ _ _ EP (fun _ => can_sedge _ _ Hcan) Hnt eq_refl) as [P [M [O NE]]].
-      split.
-      + eapply (inv_extend (killed s i) s2 (e_t v) (inv_kill s i v Hinv Hn) (no_live_after_kill s i v Hinv Hn Hl) O NE).
-      + change (cur p (killed s i)) with (cur p s) in *.
-        eapply step_ok_of; [cbn [op_thread]; rewrite Hn, Hl; reflexivity|exact ES|exact P|exact M|left; exact Hnt].
+      apply andb_true_iff in Hl. destruct Hl as [Hl Hcl].
+      destruct (decide_ok s i v opt false f tape s' r ann Hinv Hn Hl) as [Hi [P [M T]]].
+      { destruct (decide p s i v opt false f tape) as [[a1 [a2 a4]] a3]. cbn [fst snd] in ES', Hd. injection ES' as -> -> ->. subst a3. reflexivity. }
+      split; [exact Hi|].
+      eapply step_ok_of; [cbn [op_thread]; rewrite Hn, Hl, Hcl; reflexivity|exact ES|exact P|exact M|left; exact T].
     - (* Stop *)
       unfold disciplined_step in Hd. apply negb_true_iff in Hd.
       destruct (step p s (Stop i f tape)) as [s' [r ann]] eqn:ES. cbn [fst].
@@ -475,21 +501,18 @@ Section Generic.
       destruct (nth_error (pending s) i) as [v|] eqn:Hn.
       2:{ cbn [fst] in ES'. injection ES' as <- <- <-. split; [exact Hinv|].
           unfold step_ok. cbn [op_thread]. rewrite Hn. reflexivity. }
-      destruct (e_live v) eqn:Hl.
+      destruct (e_live v && e_clos v) eqn:Hl.
       2:{ cbn [fst] in ES'. injection ES' as <- <- <-. split; [exact Hinv|].
           unfold step_ok. cbn [op_thread]. rewrite Hn, Hl. reflexivity. }
-      fold (killed s i) in *.
-      match type of Hd with context [process p _ _ ?k _ _ ?sk true tape] => set (k0 := k) in *; set (skip := sk) in * end.
-      destruct (process p (killed s i) (e_t v) k0 (e_msg v) (e_st v) skip true tape) as [[[s2 ann2] ok] fat] eqn:EP.
-      cbn [fst snd] in ES', Hd. injection ES' as <- <- <-. subst fat.
-      pose proof (I1 _ _ Hn Hl) as Hsrc. pose proof (I0 _ _ Hn) as Hcan. rewrite <- Hsrc in Hcan.
-      assert (Hnt : terminal p (cur p s (e_t v)) = false) by (eapply can_nonterminal; exact Hcan).
-      change (cur p s) with (cur p (killed s i)) in Hcan, Hnt.
-      destruct (process_ok _ _ _ _ _ _ _ _ _ _ _ _ EP (fun _ => can_sedge _ _ Hcan) Hnt eq_refl) as [P [M [O NE]]].
+      apply andb_true_iff in Hl. destruct Hl as [Hl Hcl].
+      destruct (decide p s i v 0 true f tape) as [[s2 [r2 ann2]] fat2] eqn:ED.
+      cbn [fst snd] in ES', Hd. injection ES' as Hs <- <-. subst fat2.
+      destruct (decide_ok s i v 0 true f tape s2 r2 ann2 Hinv Hn Hl ED) as [Hi [P [M T]]].
+      assert (Hcur : forall t0, cur p s' t0 = cur p s2 t0) by (intros t0; rewrite <- Hs; destruct (p_stop_keeps_payload p); reflexivity).
       split.
-      + eapply (inv_extend (killed s i) s2 (e_t v) (inv_kill s i v Hinv Hn) (no_live_after_kill s i v Hinv Hn Hl) O NE).
-      + change (cur p (killed s i)) with (cur p s) in *.
-        eapply step_ok_of; [cbn [op_thread]; rewrite Hn, Hl; reflexivity|exact ES|exact P|exact M|left; exact Hnt].
+      + rewrite <- Hs. destruct (p_stop_keeps_payload p); [|exact Hi].
+        destruct Hi as [J0 [J1 J2]]. repeat split; [exact J0|exact J1|exact J2].
+      + eapply step_ok_of; [cbn [op_thread]; rewrite Hn, Hl, Hcl; reflexivity|exact ES|exact P|rewrite Hcur; exact M|left; exact T].
     - (* Accept *)
       unfold disciplined_step in Hd.
       destruct (step p s (Accept i tape)) as [s' [r ann]] eqn:ES. cbn [fst snd] in *.
@@ -500,27 +523,68 @@ Section Generic.
       destruct (N.eqb (cur p s (e_t v)) (e_src v)) eqn:Hg.
       2:{ cbn [fst] in ES'. injection ES' as <- <- <-. split; [exact Hinv|].
           eapply step_ok_of; [cbn [op_thread]; rewrite Hn; reflexivity|exact ES|reflexivity|left; reflexivity|right; reflexivity]. }
-      apply N.eqb_eq in Hg. fold (killed s i) in *.
+      apply N.eqb_eq in Hg.
       match type of ES' with context [process p _ _ ?k _ _ false false tape] => set (k0 := k) in * end.
-      destruct (process p (killed s i) (e_t v) k0 (e_msg v) (e_st v) false false tape) as [[[s2 ann2] ok] fat] eqn:EP.
+      destruct (process p (killed s i (e_t v)) (e_t v) k0 (e_msg v) (e_st v) false false tape) as [[[s2 ann2] ok] fat] eqn:EP.
       cbn [fst snd] in ES'. injection ES' as <- Hr <-.
       assert (Hfat : fat = false)
-        by (pose proof (process_noab_fat (killed s i) (e_t v) k0 (e_msg v) (e_st v) false tape) as X; rewrite EP in X; exact X).
+        by (pose proof (process_noab_fat (killed s i (e_t v)) (e_t v) k0 (e_msg v) (e_st v) false tape) as X; rewrite EP in X; exact X).
       assert (Hlo : live_others (pending s) i (e_t v) = false).
       { rewrite <- Hr in Hd. destruct ok; cbn [is_reject orb] in Hd; apply negb_true_iff in Hd; exact Hd. }
       pose proof (I0 _ _ Hn) as Hcan. rewrite <- Hg in Hcan.
       assert (Hnt : terminal p (cur p s (e_t v)) = false) by (eapply can_nonterminal; exact Hcan).
-      change (cur p s) with (cur p (killed s i)) in Hcan, Hnt.
+      change (cur p s) with (cur p (killed s i (e_t v))) in Hcan, Hnt.
       destruct (process_ok _ _ _ _ _ _ _ _ _ _ _ _ EP (fun _ => can_sedge _ _ Hcan) Hnt Hfat) as [P [M [O NE]]].
       split.
-      + eapply (inv_extend (killed s i) s2 (e_t v) (inv_kill s i v Hinv Hn)); [|exact O|exact NE].
+      + eapply (inv_extend (killed s i (e_t v)) s2 (e_t v) (inv_kill s i v (e_t v) Hinv Hn)); [|exact O|exact NE].
         intros j e Hj Lj. unfold killed in Hj. cbn [pending] in Hj.
         destruct (Nat.eq_dec i j) as [<-|Hij].
         * rewrite (nth_kill_same _ _ _ Hn) in Hj. injection Hj as <-. cbn in Lj. discriminate.
         * rewrite nth_kill_other in Hj by exact Hij.
           eapply (live_others_false _ _ _ Hlo j e); [congruence|exact Hj|exact Lj].
-      + change (cur p (killed s i)) with (cur p s) in *.
+      + change (cur p (killed s i (e_t v))) with (cur p s) in *.
         eapply step_ok_of; [cbn [op_thread]; rewrite Hn; reflexivity|exact ES|exact P|exact M|left; exact Hnt].
+    - (* ActionContinue by instance id *)
+      unfold disciplined_step in Hd.
+      destruct (step p s (ContinueP t opt f tape)) as [s' [r ann]] eqn:ES. cbn [fst snd] in *.
+      pose proof ES as ES'. unfold step, step_full in ES'. unfold step_fat, step_full in Hd.
+      destruct (payload s t) as [i|] eqn:Hp.
+      2:{ cbn [fst] in ES'. injection ES' as <- <- <-. split; [exact Hinv|].
+          unfold step_ok. cbn [op_thread]. rewrite Hp. reflexivity. }
+      destruct (nth_error (pending s) i) as [v|] eqn:Hn.
+      2:{ cbn [fst] in ES'. injection ES' as <- <- <-. split; [exact Hinv|].
+          unfold step_ok. cbn [op_thread]. rewrite Hp, Hn. reflexivity. }
+      destruct (existsb _ (p_cont_stops p)).
+      { cbn [fst] in ES'. injection ES' as <- <- <-. split; [exact Hinv|].
+        eapply step_ok_of; [cbn [op_thread]; rewrite Hp, Hn; reflexivity|exact ES|reflexivity|left; reflexivity|right; reflexivity]. }
+      assert (Hr : r = ROk).
+      { unfold decide in ES'. destruct (process p _ (e_t v) _ (e_msg v) (e_st v) _ true tape) as [[[a1 a2] a3] a4].
+        cbn [fst] in ES'. injection ES' as _ <- _. reflexivity. }
+      subst r. cbn [is_err orb] in Hd. apply andb_true_iff in Hd. destruct Hd as [Hl Hd]. apply negb_true_iff in Hd.
+      destruct (decide_ok s i v opt false f tape s' ROk ann Hinv Hn Hl) as [Hi [P [M T]]].
+      { destruct (decide p s i v opt false f tape) as [[a1 [a2 a4]] a3]. cbn [fst snd] in ES', Hd. injection ES' as -> -> ->. subst a3. reflexivity. }
+      split; [exact Hi|].
+      eapply step_ok_of; [cbn [op_thread]; rewrite Hp, Hn; reflexivity|exact ES|exact P|exact M|left; exact T].
+    - (* ActionStop by instance id *)
+      unfold disciplined_step in Hd.
+      destruct (step p s (StopP t f tape)) as [s' [r ann]] eqn:ES. cbn [fst snd] in *.
+      pose proof ES as ES'. unfold step, step_full in ES'. unfold step_fat, step_full in Hd.
+      destruct (payload s t) as [i|] eqn:Hp.
+      2:{ cbn [fst] in ES'. injection ES' as <- <- <-. split; [exact Hinv|].
+          unfold step_ok. cbn [op_thread]. rewrite Hp. reflexivity. }
+      destruct (nth_error (pending s) i) as [v|] eqn:Hn.
+      2:{ cbn [fst] in ES'. injection ES' as <- <- <-. split; [exact Hinv|].
+          unfold step_ok. cbn [op_thread]. rewrite Hp, Hn. reflexivity. }
+      assert (Hr : r = ROk).
+      { unfold decide in ES'. destruct (process p _ (e_t v) _ (e_msg v) (e_st v) _ true tape) as [[[a1 a2] a3] a4].
+        cbn [fst] in ES'. injection ES' as _ <- _. reflexivity. }
+      subst r. cbn [is_err orb] in Hd. apply andb_true_iff in Hd. destruct Hd as [Hl Hd]. apply negb_true_iff in Hd.
+      destruct (decide_ok s i v 0 true f tape s' ROk ann Hinv Hn Hl) as [Hi [P [M T]]].
+      { destruct (decide p s i v 0 true f tape) as [[a1 [a2 a4]] a3]. cbn [fst snd] in ES', Hd. injection ES' as -> -> ->. subst a3. reflexivity. }
+      split; [exact Hi|].
+      eapply step_ok_of; [cbn [op_thread]; rewrite Hp, Hn; reflexivity|exact ES|exact P|exact M|left; exact T].
+    - (* Restart *)
+      unfold step, step_full. cbn [fst]. split; [apply inv_no_closures; exact Hinv|reflexivity].
   Qed.
 
   Lemma run_steps_ok : forall ops s, inv s -> disciplined p s ops = true -> all_steps_ok p s ops = true.
@@ -565,11 +629,21 @@ Section Generic.
     cbn [fst] in *. exact L.
   Qed.
 
+  Lemma decide_other s i v opt stop f tape t' :
+    t' <> e_t v -> cur p (fst (fst (decide p s i v opt stop f tape))) t' = cur p s t'.
+  Proof.
+    intros H. unfold decide.
+    match goal with |- context [process p ?s' (e_t v) ?k (e_msg v) (e_st v) ?sk true tape] =>
+      pose proof (process_other s' (e_t v) k (e_msg v) (e_st v) sk true tape t' H) as L;
+      destruct (process p s' (e_t v) k (e_msg v) (e_st v) sk true tape) as [[[s2 ann] ok] fat] end.
+    cbn [fst] in *. exact L.
+  Qed.
+
   Lemma step_other s o t' :
     (forall t, op_thread p s o = Some t -> t' <> t) -> cur p (fst (step p s o)) t' = cur p s t'.
   Proof.
     intros H. unfold step, step_full.
-    destruct o as [outbound m v3 flag t f tape|outbound m v3 flag wi wth wpth fresh f tape|i opt f tape|i f tape|i tape];
+    destruct o as [outbound m v3 flag t f tape|outbound m v3 flag wi wth wpth fresh f tape|i opt f tape|i f tape|i tape|t opt f tape|t f tape|];
       cbn [op_thread] in *.
     - apply msg_step_other. apply H. reflexivity.
     - destruct (wire_thread p m v3 outbound wi wth wpth fresh) as [t|]; [|reflexivity].
@@ -578,24 +652,23 @@ Section Generic.
         pose proof (msg_step_other s outbound m v3 flag t b ff tape t' (H t eq_refl)) as L;
         destruct (msg_step p s outbound m v3 flag t b ff tape) as [[s1 [r1 ann1]] fat] end.
       cbn [fst] in *. exact L.
-    - destruct (nth_error (pending s) i) as [v|]; [|reflexivity]. destruct (e_live v); [|reflexivity].
-      specialize (H (e_t v) eq_refl).
-      match goal with |- context [process p ?s' (e_t v) ?k (e_msg v) (e_st v) ?sk true tape] =>
-        pose proof (process_other s' (e_t v) k (e_msg v) (e_st v) sk true tape t' H) as L;
-        destruct (process p s' (e_t v) k (e_msg v) (e_st v) sk true tape) as [[[s2 ann] ok] fat] end.
-      cbn [fst] in *. exact L.
-    - destruct (nth_error (pending s) i) as [v|]; [|reflexivity]. destruct (e_live v); [|reflexivity].
-      specialize (H (e_t v) eq_refl).
-      match goal with |- context [process p ?s' (e_t v) ?k (e_msg v) (e_st v) ?sk true tape] =>
-        pose proof (process_other s' (e_t v) k (e_msg v) (e_st v) sk true tape t' H) as L;
-        destruct (process p s' (e_t v) k (e_msg v) (e_st v) sk true tape) as [[[s2 ann] ok] fat] end.
-      cbn [fst] in *. exact L.
+    - destruct (nth_error (pending s) i) as [v|]; [|reflexivity]. destruct (e_live v && e_clos v); [|reflexivity].
+      apply decide_other. apply H. reflexivity.
+    - destruct (nth_error (pending s) i) as [v|]; [|reflexivity]. destruct (e_live v && e_clos v); [|reflexivity].
+      pose proof (decide_other s i v 0 true f tape t' (H _ eq_refl)) as L.
+      destruct (decide p s i v 0 true f tape) as [[s2 y] fat]. cbn [fst] in *.
+      destruct (p_stop_keeps_payload p); exact L.
     - destruct (nth_error (pending s) i) as [v|]; [|reflexivity]. specialize (H (e_t v) eq_refl).
       destruct (N.eqb (cur p s (e_t v)) (e_src v)); [|reflexivity].
       match goal with |- context [process p ?s' (e_t v) ?k (e_msg v) (e_st v) false false tape] =>
         pose proof (process_other s' (e_t v) k (e_msg v) (e_st v) false false tape t' H) as L;
         destruct (process p s' (e_t v) k (e_msg v) (e_st v) false false tape) as [[[s2 ann] ok] fat] end.
       cbn [fst] in *. exact L.
+    - destruct (payload s t) as [i|]; [|reflexivity]. destruct (nth_error (pending s) i) as [v|]; [|reflexivity].
+      destruct (existsb _ (p_cont_stops p)); [reflexivity|]. apply decide_other. apply H. reflexivity.
+    - destruct (payload s t) as [i|]; [|reflexivity]. destruct (nth_error (pending s) i) as [v|]; [|reflexivity].
+      apply decide_other. apply H. reflexivity.
+    - reflexivity.
   Qed.
 
   (* ---- terminal states are never left (guarded histories) ---- *)
@@ -677,11 +750,16 @@ Proof.
     destruct (ok || p_async p); [destruct (Nat.ltb _ _)|]; discriminate.
 Qed.
 
+Lemma decide_not_reject p s i v opt stop f tape : fst (snd (fst (decide p s i v opt stop f tape))) <> RReject.
+Proof.
+  unfold decide. destruct (process p _ (e_t v) _ (e_msg v) (e_st v) _ true tape) as [[[s2 ann] ok] fat]. cbn. discriminate.
+Qed.
+
 Lemma reject_preserves_gen p s o :
   fst (snd (step p s o)) = RReject -> fst (step p s o) = s /\ snd (snd (step p s o)) = [].
 Proof.
   unfold step, step_full.
-  destruct o as [outbound m v3 flag t f tape|outbound m v3 flag wi wth wpth fresh f tape|i opt f tape|i f tape|i tape].
+  destruct o as [outbound m v3 flag t f tape|outbound m v3 flag wi wth wpth fresh f tape|i opt f tape|i f tape|i tape|t opt f tape|t f tape|].
   - apply msg_reject_preserves.
   - destruct (wire_thread p m v3 outbound wi wth wpth fresh) as [t|]; [|intros _; split; reflexivity].
     destruct (_ && N.eqb (p_tid_check p) 2); [intros _; split; reflexivity|].
@@ -690,14 +768,21 @@ Proof.
       destruct (msg_step p s outbound m v3 flag t b ff tape) as [[s1 [r1 ann1]] fat] end.
     cbn [fst snd] in *.
     intros H. apply L. unfold relabel in H. destruct (_ && _) in H; [destruct r1; try discriminate|]; exact H.
-  - destruct (nth_error (pending s) i) as [v|]; [|cbn; discriminate]. destruct (e_live v); [|cbn; discriminate].
-    destruct (process p _ (e_t v) _ (e_msg v) (e_st v) _ true tape) as [[[s2 ann] ok] fat]. cbn. discriminate.
-  - destruct (nth_error (pending s) i) as [v|]; [|cbn; discriminate]. destruct (e_live v); [|cbn; discriminate].
-    destruct (process p _ (e_t v) _ (e_msg v) (e_st v) _ true tape) as [[[s2 ann] ok] fat]. cbn. discriminate.
+  - destruct (nth_error (pending s) i) as [v|]; [|cbn; discriminate]. destruct (e_live v && e_clos v); [|cbn; discriminate].
+    intros H. exfalso. exact (decide_not_reject _ _ _ _ _ _ _ _ H).
+  - destruct (nth_error (pending s) i) as [v|]; [|cbn; discriminate]. destruct (e_live v && e_clos v); [|cbn; discriminate].
+    pose proof (decide_not_reject p s i v 0 true f tape) as N.
+    destruct (decide p s i v 0 true f tape) as [[s2 y] fat]. cbn [fst snd] in *. intros H. exfalso. exact (N H).
   - destruct (nth_error (pending s) i) as [v|]; [|cbn; discriminate].
     destruct (N.eqb (cur p s (e_t v)) (e_src v)); [|intros _; split; reflexivity].
     destruct (process p _ (e_t v) _ (e_msg v) (e_st v) false false tape) as [[[s2 ann] ok] fat]. cbn [fst snd].
     destruct ok; discriminate.
+  - destruct (payload s t) as [i|]; [|cbn; discriminate]. destruct (nth_error (pending s) i) as [v|]; [|cbn; discriminate].
+    destruct (existsb _ (p_cont_stops p)); [cbn; discriminate|].
+    intros H. exfalso. exact (decide_not_reject _ _ _ _ _ _ _ _ H).
+  - destruct (payload s t) as [i|]; [|cbn; discriminate]. destruct (nth_error (pending s) i) as [v|]; [|cbn; discriminate].
+    intros H. exfalso. exact (decide_not_reject _ _ _ _ _ _ _ _ H).
+  - cbn. discriminate.
 Qed.
 
 Lemma disallowed_rejected_gen p s outbound m v3 flag t f tape :
@@ -768,6 +853,29 @@ Lemma accept_guard_gen p s i tape v :
 Proof.
   intros Hn Hne. unfold step, step_full. rewrite Hn.
   destruct (N.eqb_spec (cur p s (e_t v)) (e_src v)); [congruence|reflexivity].
+Qed.
+
+(* monotonicity in the edge relation *)
+Lemma is_path_mono p R : (forall a b, sedge p a b = true -> R a b = true) ->
+  forall l, is_path p l = true -> is_path_rel R l = true.
+Proof.
+  intros H. induction l as [|a l IH]; [reflexivity|]. destruct l as [|b l]; [reflexivity|].
+  intros Hp. change (is_path p (a :: b :: l)) with (sedge p a b && is_path p (b :: l)) in Hp.
+  apply andb_true_iff in Hp. destruct Hp as [Hab Hr].
+  change (is_path_rel R (a :: b :: l)) with (R a b && is_path_rel R (b :: l)).
+  rewrite (H _ _ Hab). cbn [andb]. apply IH. exact Hr.
+Qed.
+
+Lemma all_steps_ok_mono p R : (forall a b, sedge p a b = true -> R a b = true) ->
+  forall ops s, all_steps_ok p s ops = true -> all_steps_ok_rel R p s ops = true.
+Proof.
+  intros H. induction ops as [|o r IH]; intros s Hs; [reflexivity|].
+  cbn [all_steps_ok all_steps_ok_rel] in *. apply andb_true_iff in Hs. destruct Hs as [H1 H2].
+  rewrite (IH _ H2), andb_true_r. unfold step_ok, step_ok_rel in *.
+  destruct (op_thread p s o) as [t|]; [|reflexivity].
+  destruct (step p s o) as [s' [r0 ann]].
+  apply andb_true_iff in H1. destruct H1 as [H1 H3]. apply andb_true_iff in H1. destruct H1 as [H0 H1].
+  rewrite (is_path_mono p R H _ H0), H1, H3. reflexivity.
 Qed.
 
 (* the machine's relation is inside the published one whenever the generated pairs are *)
